@@ -329,6 +329,7 @@ func runAsmScheduled(c *asmCase, work string, rng *rand.Rand, policy int, mutAt,
 	hasJob := map[int]bool{}
 	feeder := "setup" // "feed" | "closed" | "returned"
 	failed := false
+	started := 0
 	last := -9
 	rec := func(f string, a ...interface{}) { res.trace = append(res.trace, fmt.Sprintf(f, a...)) }
 	note := func(a asmArrival) {
@@ -342,6 +343,7 @@ func runAsmScheduled(c *asmCase, work string, rng *rand.Rand, policy int, mutAt,
 		switch a.ev {
 		case "start":
 			parked[w] = "idle"
+			started++
 		case "job":
 			parked[w], hasJob[w] = "busy", true
 			if len(hasJob) > res.inflight {
@@ -420,8 +422,10 @@ func runAsmScheduled(c *asmCase, work string, rng *rand.Rand, policy int, mutAt,
 		return res
 	}
 	// start-up: every worker parks in "start"; the caller of AssembleFile parks in "feed", closes the channel at
-	// once (empty plan) or returns early (no valid plan)
-	for feeder != "returned" && (feeder == "setup" || len(parked)+len(exited) < n+b2i(feeder == "feed")) {
+	// once (empty plan) or returns early (no valid plan).  Also after an early return every worker must have
+	// announced itself before the run is left: a goroutine that reaches its "start" hook later would be taken
+	// for a worker of the next run (the hook variable is global).
+	for feeder == "setup" || started < n || (feeder != "returned" && len(parked)+len(exited) < n+b2i(feeder == "feed")) {
 		a, ok := wait()
 		if !ok {
 			return bail("hang")
@@ -640,6 +644,21 @@ func implAsmConcAccept(line string) string {
 		work = d
 	}
 	r := runAsmScheduled(c, work, rand.New(rand.NewSource(1)), 0, -1, 0, 0, forced)
+	if r.problem == "" { // the same schedule must give the same records
+		old := strings.Split(a["trace"], ",")
+		for k := 0; k < len(old) || k < len(r.trace); k++ {
+			if k >= len(old) || k >= len(r.trace) || old[k] != r.trace[k] {
+				was, now := "(end)", "(end)"
+				if k < len(old) {
+					was = old[k]
+				}
+				if k < len(r.trace) {
+					now = r.trace[k]
+				}
+				return fmt.Sprintf("impl-trace-differs@%d recorded %s, now %s", k, clip(was, 80), clip(now, 80))
+			}
+		}
+	}
 	return asmTraceAnswer(r)
 }
 
@@ -780,7 +799,7 @@ func runC01Traces(cfg Config, rep *Report, m *Model, rng *rand.Rand) {
 		"runs of chunks, an earlier version at the target path (also offered as a seed), cloning emulated in two runs of five; the " +
 		"recorded events must be a run of the Lean machine AsmConc ending in the same file and result (asmconc.accept); non-trivial " +
 		"there = at least two workers held a job at the same time"
-	runs := cfg.N(170, 6000)
+	runs := cfg.N(200, 6000)
 	for it := 0; it < runs; it++ {
 		g := genAsmTraceCase(rng)
 		c := g.c
